@@ -120,6 +120,9 @@ WIDE_DATA = ["Cafe\u0301", "Caf\u00e9", "\u1100\u1161\u11a8", "\ud55c", "\u212b"
              "\U0001d11e", "\U0001f4b0 1,000", "a\u00a0b", "a\u3000b", "a\u2003\u2028b", "\u200bx", "x\u200b", "\ufeffx", "\u0645\u0631\u062d\u0628\u0627", "\u05e9\u05dc\u05d5\u05dd",
              "\u0e2a\u0e27\u0e31\u0e2a\u0e14\u0e35", "\u65e5\u672c\u8a9e", "\uff21\uff22", "\u017fi\u0131\u0130", "stra\u00dfe", "e\u0301\u0301", "\u0041\u030a", "\u1e9b\u0323",
              "x\u0085y", "x\x1cy", "\x7f", "\x01"]
+# entity references and look-alikes: the tree carries them as written (still escaped); nothing is resolved, nothing is escaped again
+ENTITY_DATA = ["&amp;", "&lt;", "&gt;", "&quot;", "&apos;", "&nbsp;", "&#38;", "&#x26;", "&#60;", "&amp;amp;", "&amp;lt;", "&amp;#38;", "&", "&&", "& x", "a & b", "AT&T", "AT&amp;T",
+               "&amp", "&amp ;", "&AMP;", "&lt;b&gt;bold&lt;/b&gt;", "1 &lt; 2 &amp;&amp; 3 &gt; 2", "&;", "&#;", "&#xD;", "x&#10;y", "&copy; 2024", "%26amp%3B", "&amp;&lt;&gt;&quot;&apos;"]
 TAG_POOL = ["A", "B", "OFX", "STMTTRN", "CODE", "A.B", "_", "1", "X1", "INV401K", "A_B", "Z9.", "SCRIPT", "BR", "LINK", "META"]
 
 
@@ -144,6 +147,9 @@ def rand_data(rng):
     r = rng.random()
     if r < 0.45:
         return rng.choice([x for x in DATA_POOL if data_ok(x)])
+    if r < 0.52:
+        x = rng.choice(ENTITY_DATA)
+        return x if data_ok(x) else "&amp;"
     if r < 0.62:
         x = rng.choice(WIDE_DATA)
         if rng.random() < 0.4:
@@ -562,7 +568,8 @@ def run(rep, tier, rng):
         if "tree" in c:
             want = tuple_tree(c["tree"])
             if out != ("ok", want):
-                fail(c.get("key", "corpus:" + c["_file"]), "TreeBuilder on %r -> %r; expected tree %r (%s)" % (s, out, want, c.get("note", "")),
+                dflt = "element-data-altered" if (out[0] == "ok" and out[1] is not None and len(out[1]) == 3 and shape_only(out[1]) == shape_only(want)) else "corpus:" + c["_file"]
+                fail(c.get("key", dflt), "TreeBuilder on %r -> %r; expected tree %r (%s)" % (s, out, want, c.get("note", "")),
                      text=s, expected=want, observed=out)
 
     # ---------------- small documents x rendering choices ----------------
@@ -597,7 +604,7 @@ def run(rep, tier, rng):
                         check_rendering(rd, "", "cdata-adjacent")
 
     # ---------------- the data alphabet: every listed datum, plain and CDATA-wrapped, with and without end tag, padded with blanks ----------------
-    for x in WIDE_DATA + [y for y in DATA_POOL if data_ok(y)]:
+    for x in WIDE_DATA + ENTITY_DATA + [y for y in DATA_POOL if data_ok(y)]:
         if not data_ok(x):
             raise RuntimeError("harness: %r is not in the data domain" % (x,))
         for cd in ((False, True) if cdata_ok(x) else (False,)):
